@@ -76,3 +76,60 @@ func c19Shared(n int) {
 
 func C19Shared()     { c19Shared(2) }
 func C19SharedDeep() { c19Shared(3) }
+
+// zzDir: a directory proxy whose list of services changes between two calls (an unrelated service
+// disappears): only Services() is used by the session's refresh.
+type zzDir struct {
+	services.ServiceDirectoryProxy
+	lists [][]services.ServiceInfo
+	calls int
+}
+
+func (d *zzDir) Services() ([]services.ServiceInfo, error) {
+	l := d.lists[d.calls%len(d.lists)]
+	d.calls++
+	return append([]services.ServiceInfo(nil), l...), nil
+}
+
+// C19LookupDuringRefresh: requests look services up (by name and by id) while the session refreshes
+// its service list because an UNRELATED service was removed / added: a registered service is always
+// found, with its own endpoints (every shared-memory access of bus/session is a scheduling point).
+func C19LookupDuringRefresh() {
+	sym.RacyScope("bus/session.")
+	x := services.ServiceInfo{Name: "x", ServiceId: 2, Endpoints: []string{"tcp://x"}}
+	a := services.ServiceInfo{Name: "a", ServiceId: 3, Endpoints: []string{"tcp://a"}}
+	b := services.ServiceInfo{Name: "b", ServiceId: 4, Endpoints: []string{"tcp://b"}}
+	orders := [][][]services.ServiceInfo{
+		{{x, a, b}, {a, b}},         // x removed
+		{{a, b}, {x, a, b}},         // x added
+		{{x, a, b}, {b, a, x}},      // the directory lists them in another order
+		{{x, a, b}, {a, b}, {b, a}}, // two refreshes
+	}
+	d := &zzDir{lists: orders[sym.Choose("refresh", len(orders))]}
+	s := &Session{poll: map[string]bus.Client{}, Directory: d}
+	s.updateServiceList()
+	refreshes := len(d.lists) - 1
+	done := make(chan bool, 3)
+	var byName, byID services.ServiceInfo
+	var errName, errID error
+	go func() {
+		for i := 0; i < refreshes; i++ {
+			s.updateServiceList()
+		}
+		done <- true
+	}()
+	go func() { byName, errName = s.findServiceName("a"); done <- true }()
+	go func() { byID, errID = s.findServiceID(4); done <- true }()
+	<-done
+	<-done
+	<-done
+	sym.Assert(errName == nil, "lookup-by-name/registered-service-not-found")
+	sym.Assert(errID == nil, "lookup-by-id/registered-service-not-found")
+	if errName == nil {
+		sym.Assert(byName.Name == "a" && byName.ServiceId == 3 && len(byName.Endpoints) == 1 && byName.Endpoints[0] == "tcp://a", "lookup-by-name/wrong-service")
+	}
+	if errID == nil {
+		sym.Assert(byID.Name == "b" && byID.ServiceId == 4 && len(byID.Endpoints) == 1 && byID.Endpoints[0] == "tcp://b", "lookup-by-id/wrong-service")
+	}
+	sym.Reach("lookup-refresh-done")
+}
